@@ -129,6 +129,48 @@ Ltac twr := repeat first
   [ rewrite as_i32_id by solve_in | rewrite as_u32_id by solve_in
   | rewrite as_i64_id by solve_in | rewrite as_u64_id by solve_in ].
 
+(* the body of overflowing_add_signed after  let secs_to_add = rhs.num_seconds();
+   let frac_to_add = rhs.subsec_nanos();  (proof-side copy, tied to the model by [oas_unfold]) *)
+Definition oas_body (t : ntime) (secs_to_add frac_to_add : Z) : R (ntime * Z) :=
+  let secs := as_i64 (tsecs t) in
+  let frac := as_i32 (tfrac t) in
+  (* the [if frac >= 1_000_000_000] block: inl = early return, inr = updated (secs, frac) *)
+  let* st :=
+    (if frac >=? 1000000000 then
+       (* secs_to_add > 0 || (frac_to_add > 0 && frac >= 2_000_000_000 - frac_to_add), lazily *)
+       let* escapes :=
+         (if secs_to_add >? 0 then Val true
+          else if frac_to_add >? 0 then
+            let* lim := sub_i32 2000000000 frac_to_add in Val (frac >=? lim)
+          else Val false) in
+       if escapes then
+         let* f := sub_i32 frac 1000000000 in Val (inr (secs, f))
+       else if secs_to_add <? 0 then
+         let* f := sub_i32 frac 1000000000 in
+         let* s := add_i64 secs 1 in Val (inr (s, f))
+       else
+         let* f := add_i32 frac frac_to_add in
+         Val (inl (mk_time (tsecs t) (as_u32 f), 0))
+     else Val (inr (secs, frac))) in
+  match st with
+  | inl r => Val r
+  | inr (secs, frac) =>
+    let* secs := add_i64 secs secs_to_add in
+    let* frac := add_i32 frac frac_to_add in
+    let* '(secs, frac) :=
+      (if frac <? 0 then
+         let* f := add_i32 frac 1000000000 in let* s := sub_i64 secs 1 in Val (s, f)
+       else if frac >=? 1000000000 then
+         let* f := sub_i32 frac 1000000000 in let* s := add_i64 secs 1 in Val (s, f)
+       else Val (secs, frac)) in
+    let* secs_in_day := rem_euclid in_i64 secs 86400 in
+    let* remaining := sub_i64 secs secs_in_day in
+    Val (mk_time (as_u32 secs_in_day) (as_u32 frac), remaining)
+  end.
+Lemma oas_unfold t rhs : overflowing_add_signed t rhs =
+  (let* secs_to_add := num_seconds rhs in let* frac_to_add := subsec_nanos rhs in oas_body t secs_to_add frac_to_add).
+Proof. reflexivity. Qed.
+
 Lemma oas_body_spec t q r :
   tvalid t -> -9223372036854776 <= q <= 9223372036854776 -> -1000000000 < r < 1000000000 ->
   (0 < q -> 0 <= r) -> (q < 0 -> r <= 0) ->
@@ -149,7 +191,7 @@ Time Qed.
 Theorem add_spec t d : tvalid t -> valid d ->
   overflowing_add_signed t d = Val (add_result (tsecs t) (tfrac t) (ns d)).
 Proof.
-  intros Ht Hd. unfold overflowing_add_signed.
+  intros Ht Hd. rewrite oas_unfold.
   rewrite (num_seconds_spec d Hd), (subsec_nanos_spec d Hd). unfold bind.
   destruct Hd as [Hd1 Hd2]. unfold in_rng, Proofs.C06.G, RMIN, RMAX in *.
   pose proof (Z.quot_rem' (ns d) 1000000000) as E.
